@@ -103,6 +103,10 @@ pub fn run(ctx: &Ctx) -> Report {
                 // the format does not depend on how the writer is dressed: through the counting wrapper
                 // (whose write_bits / write_unary the table-free encoders go through) the bits are the same
                 through_wrapper(e, code, wms[(ci / 17) % wms.len()], v, ci, rep);
+                // the byte-level VByte writers must put the complete codeword into any std::io sink
+                if matches!(code, Code::VByteBe) && e == En::BE {
+                    super::c18::check_hostile_io(v, ci, rep);
+                }
             }
         }
         if ctx.tier != Tier::Tiny {
